@@ -44,7 +44,9 @@ class TypeScriptSRPAnalyzer(TypeScriptBaseAnalyzer):
         Returns:
             List of all class declaration nodes
         """
-        return self.walk_tree(root_node, "class_declaration")
+        return self.walk_tree(root_node, "class_declaration") + self.walk_tree(
+            root_node, "abstract_class_declaration"
+        )
 
     def analyze_class(self, class_node: Any, source: str, config: SRPConfig) -> dict[str, Any]:
         """Analyze a TypeScript class for SRP metrics.
